@@ -844,11 +844,20 @@ impl<E: Eviction> InnerT<E> {
 
 // ---- RawCacheEntry::drop, last reference of a phantom (disk-only / filtered) entry: one Evict notification and one
 // hand-off to the pipe (C12, C13)
-pub struct EntryT<E: Eviction> { pub pipe: PipeT<E>, pub inner: InnerT<E>, pub record: Arc<Record<E>> }
-//@region foyer-memory/src/raw.rs :: impl~Drop for RawCacheEntry/fn drop name=entry_drop_phantom start=/if self\.record\.properties\(\)\.phantom\(\)/ stmts=1
+//@item foyer-common/src/properties.rs :: enum Source rules=derive-structural
+pub struct EntryT<E: Eviction> { pub pipe: PipeT<E>, pub inner: InnerT<E>, pub record: Arc<Record<E>>, pub source: Source }
+/// the shard's eviction container as seen from the last drop of a handle: `release` log (LRU moves the record from
+/// the pin list back to its queue; Noop for the other algorithms)
+pub struct ReleaseLogT<E: Eviction> { pub released: Ghost<Seq<Arc<Record<E>>>> }
+/// stands for `match E::release() { Op::Noop => {} Op::Immutable(_) => shard.read().with(..release_immutable..), Op::Mutable(_) => shard.write().with(..release_mutable..) }`
+#[verifier::external_body]
+pub fn verif_release<E: Eviction>(shard: &mut ReleaseLogT<E>, record: &Arc<Record<E>>)
+    ensures final(shard).released@ == old(shard).released@.push(*record),
+{ }
+//@region foyer-memory/src/raw.rs :: impl~Drop for RawCacheEntry/fn drop name=entry_last_drop start=/if self\.record\.dec_refs\(1\) == 0 \{/ body=1 sub=@(?s)match E::release\(\) \{.*?\n            \}@verif_release(shard, &self.record);@
 //@head
 impl<E: Eviction> EntryT<E> {
-    fn entry_drop_phantom(&mut self)
+    fn entry_last_drop(&mut self, shard: &mut ReleaseLogT<E>)
         ensures
             final(self).record == old(self).record,
             final(self).pipe.enabled == old(self).pipe.enabled,
@@ -859,8 +868,13 @@ impl<E: Eviction> EntryT<E> {
                 final(self).pipe.sent@ == old(self).pipe.sent@.push(old(self).record), // @label phantom_last_drop_piped_once
             old(self).record.spec_props().spec_phantom() == Some(true) && !old(self).pipe.enabled ==>
                 final(self).pipe.sent@ == old(self).pipe.sent@, // @label phantom_not_piped_when_disabled
+            old(self).record.spec_props().spec_phantom() == Some(true) ==> final(shard).released@ == old(shard).released@,
             old(self).record.spec_props().spec_phantom() != Some(true) ==>
                 final(self).pipe.sent@ == old(self).pipe.sent@ && final(self).inner.event_listener.l == old(self).inner.event_listener.l, // @label ordinary_entry_drop_has_no_leave_effects
+            // C18: whichever handle drops last (from an insert, a fetch or a lookup), the record is released to the
+            // eviction container exactly once, so a pinned record becomes evictable again
+            old(self).record.spec_props().spec_phantom() != Some(true) ==>
+                final(shard).released@ == old(shard).released@.push(old(self).record), // @label last_drop_of_any_handle_releases_the_record_once
 //@end
 }
 
